@@ -979,6 +979,16 @@ class Interp:
         loop = GuardedLoop(*coros, start=start)
         loop.verif_count = 0
         outcome = 'ok'
+        # a wall-clock bound as well: code that spins inside one activation must not hang the check either
+        import signal
+        import threading
+        armed = False
+        if threading.current_thread() is threading.main_thread() and hasattr(signal, 'setitimer'):
+            def on_alarm(_sig, _frm):
+                raise TooLong()
+            previous = signal.signal(signal.SIGALRM, on_alarm)
+            signal.setitimer(signal.ITIMER_REAL, float(os.environ.get('VERIF_CASE_SECONDS', '20')))
+            armed = True
         try:
             loop.run()
         except TooLong:
@@ -989,7 +999,9 @@ class Interp:
                 import traceback
                 traceback.print_exc()
         finally:
-            pass
+            if armed:
+                signal.setitimer(signal.ITIMER_REAL, 0)
+                signal.signal(signal.SIGALRM, previous)
         if outcome == 'ok':
             # waiters whose condition holds although nothing will wake them any more
             from usim._core.handler import __USIM_STATE__
